@@ -92,12 +92,15 @@ CHECKS["C17"] = {
              "sequence over two peers; non-trivial = a resolve observes its topic across a deadline (rotation). distinct = distinct inputs / op trace"),
     "assumptions": ["instants are at or after the Unix epoch, intervals are whole seconds >= 1 s",
                     "point inequality is asserted only where the keyed input (topic|seed) differs as a byte string"],
+    "crash_patterns": [
+        {"re": r"^fatal error: concurrent map (writes|read and map write|iteration and map write)", "also": [r"rendezvous\.\(\*RotationInterval\)"], "identity": "process-crash/concurrent-map-access"},
+    ],
     "units": [
         {"pkg": "pkg/rendezvous", "run": "^TestVerif_C17_", Q: {"timeout": 300}, T: {"timeout": 3000, "shards": 8}},
         {"pkg": ".", "run": "^TestVerif_C17_", Q: {"timeout": 600}, T: {"timeout": 3000, "shards": 8}},
     ],
     "mandatory_labels": {"all": ["open-group", "pure/period-boundary", "pure/key-longer-than-block", "hist/observed-across-deadline", "hist/registered-in-earlier-period", "hist/cross-accept",
-                                 "hist/own-previous-in-grace", "hist/foreign", "static", "marshaler/across-deadline", "marshaler/exchange", "marshaler/own-previous-in-grace"]},
+                                 "hist/own-previous-in-grace", "hist/foreign", "static", "marshaler/across-deadline", "marshaler/exchange", "marshaler/own-previous-in-grace", "concurrent-resolvers"]},
 }
 
 _SS = "pkg/secretstore"
@@ -459,7 +462,7 @@ _ADDED6 = {
     "C14": "Service layer: the stand-alone push service created on the account's root datastore (its default secret store next to the application's), pushes of one sender opened through the service, through the application's store or arriving through the log with generated distances between counters (reply fields and AlreadyReceived flag checked).",
     "C15": "Priority counters over the whole uint64 range (the counter comes from the sender's header); bursts of 20-300 parked items followed by partial drains in both sequential machines; the metrics callback of the simple queue is a schedule point in the controlled schedules.",
     "C16": "The controlled scheduler models sync.RWMutex writer preference (readers arriving after a waiting writer wait behind it); the peer cache scenarios add readers (GetPeersForTopics / GetPeers) next to updater and waiters. Tracker scenarios with two waiters of one group: the list handed to a waiter must read the same after other tasks ran; two updaters changing two peers that share two groups.",
-    "C17": "Marshaler histories also present a peer with a heads message it marshalled itself in the period before its last rotation (accepted during the grace period).",
+    "C17": "Marshaler histories also present a peer with a heads message it marshalled itself in the period before its last rotation (accepted during the grace period). `TestVerif_C17_ConcurrentResolvers`: 4-16 tasks resolve 100-600 topics of one rotation instance right after a period boundary (a fatal data race on its maps is a crash pattern).",
     "C18": "Round trips also read every frame of a type into the same destination object (the usual receive loop), with frames of length zero after longer ones. `TestVerif_C18_FullPair`: the full writer / reader pair over a packet transport, messages up to exactly the limit. Round trips interleave writes of messages that cannot be encoded (they fail and must leave nothing on the stream).",
     "C19": "Odd groups (validly signed invitations with secrets of unusual length) joined and then used by the other requests.",
     "C20": "An older backup refused into an existing account followed by the current export. The genuine archive reaches the restore through readers that split it arbitrarily (half reads, 4096-byte pieces, single bytes). Three quarters of the histories hold one message that makes a log entry of 300 KiB or of more than 1 MiB. Mutant without both key files.",
